@@ -1,6 +1,7 @@
 package main
 
 import (
+	"regexp"
 	"encoding/json"
 	"fmt"
 	"os"
@@ -65,6 +66,27 @@ func kindMatches(kind string, sel []string) bool {
 		// "termination" selects the variant obligations of loops (loopK.decreases)
 		if s == "termination" && strings.HasPrefix(kind, "loop") && strings.HasSuffix(kind, ".decreases") {
 			return true
+		}
+		// ... and the recursion variant obligations (variant:bounded.N, variant@callee)
+		if s == "termination" && strings.HasPrefix(kind, "variant") {
+			return true
+		}
+	}
+	return false
+}
+
+// nameMatches: a selector "re:<regexp>" picks obligations by the part of their name after '#' (used where only some of a
+// function's obligations are claimed, e.g. the template-stack preconditions at the calls inside the trusted validateDecl).
+func nameMatches(name string, sel []string) bool {
+	i := strings.Index(name, "#")
+	if i < 0 {
+		return false
+	}
+	for _, s := range sel {
+		if strings.HasPrefix(s, "re:") {
+			if ok, _ := regexp.MatchString(strings.TrimPrefix(s, "re:"), name[i+1:]); ok {
+				return true
+			}
 		}
 	}
 	return false
@@ -163,7 +185,7 @@ func runCheck(repo, prop, tier string) int {
 	notes := map[string]bool{}
 	usedExtern := map[string]bool{}
 	loopsNoVariant := []string{}
-	rangeLoops, loopsWithVariant := 0, 0
+	rangeLoops, loopsWithVariant, variantCalls := 0, 0, 0
 	paths := 0
 	for _, fsel := range cfg.Funcs {
 		key, sel := fsel, kinds
@@ -196,6 +218,7 @@ func runCheck(repo, prop, tier string) int {
 			usedExtern[e] = true
 		}
 		rangeLoops += res.RangeLoops
+		variantCalls += res.VariantCalls
 		loopsWithVariant += res.LoopsWithVariant
 		for _, k := range res.LoopsNoVariant {
 			loopsNoVariant = append(loopsNoVariant, fmt.Sprintf("%s loop %d", key, k))
@@ -205,7 +228,7 @@ func runCheck(repo, prop, tier string) int {
 			safetySel = append(append([]string{}, sel...), "nonnil", "index", "slice", "assert", "panic", "div", "makeslice")
 		}
 		for i, o := range res.Obligs {
-			if o.Kind == "cover" || kindMatches(o.Kind, safetySel) {
+			if o.Kind == "cover" || kindMatches(o.Kind, safetySel) || nameMatches(o.Name, sel) {
 				jobs = append(jobs, job{o, res.Lits, i})
 			}
 		}
@@ -413,6 +436,9 @@ func runCheck(repo, prop, tier string) int {
 	assumptions = append(assumptions, ns...)
 	if rangeLoops+loopsWithVariant > 0 {
 		assumptions = append(assumptions, fmt.Sprintf("termination: %d range loops terminate by construction, %d loops have a proved variant (obligations loopK.decreases)", rangeLoops, loopsWithVariant))
+	}
+	if variantCalls > 0 {
+		assumptions = append(assumptions, fmt.Sprintf("termination: %d call sites between recursive functions carry a proved lexicographic variant (obligations variant@callee, variant:bounded.N)", variantCalls))
 	}
 	if len(loopsNoVariant) > 0 {
 		assumptions = append(assumptions, "termination not checked for: "+strings.Join(loopsNoVariant, ", "))
